@@ -23,6 +23,7 @@ type Sched struct {
 	Committers []string   `json:"committers"`
 	Readers    [][]string `json:"readers"` // [id, block]
 	Sched      []string   `json:"sched"`
+	Adv        bool       `json:"adv"` // adversarial: a schedule of the unserialised design mutant (may be infeasible on the code)
 }
 
 type sproc struct {
@@ -31,6 +32,7 @@ type sproc struct {
 	release  chan struct{}
 	finished chan struct{}
 	done     bool
+	running  bool // released and not yet back at a yield point (adversarial replay: possibly blocked in a mutex)
 	isCommit bool
 	res      string
 	val      string
@@ -150,6 +152,67 @@ func RunSched(w *tr.Writer, tid int, s Sched) error {
 	}
 	lockHolder := ""
 	diverged, drained := 0, 0
+	// poll waits up to d for a released process to reach its next yield point or to finish
+	poll := func(p *sproc, d time.Duration) {
+		select {
+		case <-p.arrived:
+			p.running = false
+		case <-p.finished:
+			p.running, p.done = false, true
+		case <-time.After(d):
+		}
+	}
+	const short = 20 * time.Millisecond
+	advStep := func(id string) {
+		p := procs[id]
+		if p == nil || p.done {
+			diverged++
+			return
+		}
+		if p.running {
+			poll(p, short)
+			if p.running || p.done {
+				diverged++ // still blocked (the code excludes this interleaving), or finished meanwhile
+				return
+			}
+		}
+		p.steps++
+		p.running = true
+		p.release <- struct{}{}
+		poll(p, short)
+	}
+	if s.Adv {
+		for _, id := range s.Sched {
+			advStep(id)
+		}
+		// let everything finish: blocked processes proceed as the lock holders return
+		deadline := time.Now().Add(5 * time.Second)
+		for {
+			alive := 0
+			for _, id := range order {
+				p := procs[id]
+				if p.done {
+					continue
+				}
+				alive++
+				if p.running {
+					poll(p, short)
+				} else {
+					drained++
+					p.steps++
+					p.running = true
+					p.release <- struct{}{}
+					poll(p, short)
+				}
+			}
+			if alive == 0 {
+				break
+			}
+			if time.Now().After(deadline) {
+				return ErrWatchdog{"adversarial schedule did not drain"}
+			}
+		}
+	}
 	step := func(id string) error {
 		p := procs[id]
 		if p == nil || p.done {
@@ -174,12 +237,15 @@ func RunSched(w *tr.Writer, tid int, s Sched) error {
 		return nil
 	}
 	for _, id := range s.Sched {
+		if s.Adv {
+			break
+		}
 		if err := step(id); err != nil {
 			return err
 		}
 	}
 	// run everything still alive to completion, one process at a time
-	for progress := true; progress; {
+	for progress := !s.Adv; progress; {
 		progress = false
 		for _, id := range order {
 			p := procs[id]
@@ -211,6 +277,6 @@ func RunSched(w *tr.Writer, tid int, s Sched) error {
 		final = append(final, []any{b, res, val})
 	}
 	w.Emit(map[string]any{"tid": tid, "op": "sched", "blocks": s.Blocks, "writes": s.Writes, "pre": s.Pre,
-		"committers": s.Committers, "results": results, "final": final, "diverged": diverged, "drained": drained, "nsched": len(s.Sched), "sched": s.Sched, "readers": s.Readers})
+		"committers": s.Committers, "results": results, "final": final, "diverged": diverged, "drained": drained, "adv": s.Adv, "nsched": len(s.Sched), "sched": s.Sched, "readers": s.Readers})
 	return nil
 }
